@@ -416,6 +416,43 @@ def r4b_filter_input(chk: Check) -> None:
                       st_fn.loc(st_call))
 
 
+def r4c_statistic_isolates_operations(chk: Check) -> None:
+    chk.rule("C07.R4c", "SIBLINGS-AGREE(error isolation per operation): get_all_operations converts a malformed operation entry into one Err and goes on with the other methods of the path item (C08.R4); the statistic counts with the same granularity - inside its method loop a non-mapping entry is either tested for (`isinstance(definition, dict)`) or handled by a try INSIDE the loop; otherwise `get: null` hides the remaining operations of that path item from `selected / total` (negative `Skipped`)", floor=1)
+    P = chk.project
+    from ..loader import ancestors as _anc
+    from ..cfg import handler_classes as _hc
+
+    fn = P.func(f"{OAS}:BaseOpenAPISchema._measure_statistic")
+    g = cfg_of(fn)
+    loops = [lp for lp in walk_body(fn.node) if isinstance(lp, ast.For) and pmatch("$X.items()", lp.iter) is not None and isinstance(lp.target, ast.Tuple) and len(lp.target.elts) == 2 and any(isinstance(a, ast.For) for a in _anc(lp) if a is not fn.node)]
+    inner = [lp for lp in loops if any("HTTP_METHODS" in unparse(t.test, 100) for t in ast.walk(lp) if isinstance(t, ast.If))]
+    if not inner:
+        chk.undecided("C07.R4c", fn, "method loop of the statistic", "not found", fn.loc())
+        return
+    lp = inner[0]
+    v = lp.target.elts[1].id  # type: ignore[attr-defined]
+    uses = [x for s_ in lp.body for x in ast.walk(s_) if (isinstance(x, ast.Call) and isinstance(x.func, ast.Attribute) and isinstance(x.func.value, ast.Name) and x.func.value.id == v and x.func.attr in ("get", "items", "values", "keys"))
+            or (isinstance(x, ast.Compare) and isinstance(x.ops[0], (ast.In, ast.NotIn)) and isinstance(x.comparators[0], ast.Name) and x.comparators[0].id == v)
+            or (isinstance(x, ast.Subscript) and isinstance(x.value, ast.Name) and x.value.id == v and isinstance(x.ctx, ast.Load))]
+    construct = "a malformed operation entry does not end the counting of its path item"
+    if not uses:
+        chk.ok("C07.R4c", fn, construct, "the entry is not used as a mapping in the loop", fn.loc(lp))
+        return
+    bad = []
+    for u in uses:
+        facts = known_conditions(g, g.stmt_nodes_containing(u))
+        guarded = any(k.startswith(f"isinstance({v}, ") and val for k, val in facts.items())
+        in_try = any(isinstance(a, ast.Try) and is_within(a, lp) and any(is_within(u, s_) for s_ in a.body) and any(set(c_.rsplit(".", 1)[-1] for c_ in _hc(h)) & {"SCHEMA_PARSING_ERRORS", "AttributeError", "Exception", "TypeError"} for h in a.handlers) for a in _anc(u))
+        if not (guarded or in_try):
+            bad.append(u)
+    if bad:
+        chk.violation("C07.R4c", fn, construct,
+                      f"`{unparse(bad[0], 40)}` is applied to every method entry; for `get: null` it raises inside the handler that wraps the WHOLE path item, so the other operations of the path are not counted although get_all_operations offers them: `3 operations tested, 2 selected / 2 total, Skipped: -1`",
+                      fn.loc(bad[0]))
+    else:
+        chk.ok("C07.R4c", fn, construct, "", fn.loc(lp))
+
+
 # --------------------------------------------------------------------------------------------- R5
 STEMS = ("path", "method", "name", "tag", "operation_id")
 
@@ -617,4 +654,4 @@ def rfwd_forwarding(chk: Check) -> None:
 
 
 def rules(tier: str) -> list:  # type: ignore[type-arg]
-    return [r1_enumerators, r1b_should_skip, r1c_filterset, r2_links, r3_entry_points, r4_statistic, r4b_filter_input, r5_cli_plumbing, r6_filter_ownership, r7_documented_methods, rfwd_forwarding]
+    return [r1_enumerators, r1b_should_skip, r1c_filterset, r2_links, r3_entry_points, r4_statistic, r4b_filter_input, r4c_statistic_isolates_operations, r5_cli_plumbing, r6_filter_ownership, r7_documented_methods, rfwd_forwarding]
